@@ -49,6 +49,7 @@ type typeDecls struct {
 	byOrigin  map[string]*VOpaque
 	skip      string // non-empty: the run's type graph cannot be declared faithfully (reason)
 	useUnsafe bool
+	freshAttr map[*VOpaque]map[string]*VOpaque
 }
 
 func (td *typeDecls) freshName() string {
@@ -321,7 +322,17 @@ func (td *typeDecls) declare(name string, o *VOpaque, depth int) {
 		if a, ok := u.attrs[attr]; ok {
 			return td.nameFor(a, depth+1)
 		}
-		return td.nameFor(&VOpaque{Origin: o.Origin + "." + attr}, depth+1)
+		// a component the generator never looked at: one fresh opaque type per (underlying value, component)
+		if td.freshAttr == nil {
+			td.freshAttr = map[*VOpaque]map[string]*VOpaque{}
+		}
+		if td.freshAttr[u] == nil {
+			td.freshAttr[u] = map[string]*VOpaque{}
+		}
+		if td.freshAttr[u][attr] == nil {
+			td.freshAttr[u][attr] = &VOpaque{Origin: u.Origin + "." + attr + "()"}
+		}
+		return td.nameFor(td.freshAttr[u][attr], depth+1)
 	}
 	tuple := func(attr string, named bool) string {
 		var elems []Value
@@ -378,6 +389,12 @@ func (td *typeDecls) declare(name string, o *VOpaque, depth int) {
 	}
 	switch kind {
 	case "*types.Pointer":
+		// defined pointer types (type P *T) are not modelled unless the run asserted *types.Named: they have no method set
+		if d, ok := run.decision("A:" + o.Origin + ":*types.Named"); !ok || d.Choice != 0 {
+			alias = true
+		} else if !alias {
+			td.skip = "a defined pointer type (type P *T): outside the type grammar the properties quantify over"
+		}
 		emit("*" + sub("Elem"))
 		methodsOK = false
 	case "*types.Slice":
@@ -494,7 +511,8 @@ func (td *typeDecls) declare(name string, o *VOpaque, depth int) {
 		if !methodsOK {
 			td.skip = "a DeepCopy method on a pointer- or interface-kinded named type"
 		} else {
-			td.decls = append(td.decls, fmt.Sprintf("func (x *%s) DeepCopy(to *%s) { panic(0) }", name, name))
+			// hasDeepCopyMethod tests only the parameter count: the parameter's type is whatever the user declared
+			td.decls = append(td.decls, fmt.Sprintf("func (x *%s) DeepCopy(to interface{}) { panic(0) }", name))
 		}
 	}
 }
